@@ -364,8 +364,6 @@ void EPoller::CheckDescriptor(struct epoll_event *event,
   if (event->events & (EPOLLHUP | EPOLLRDHUP)) {
     if (epoll_data->read_descriptor) {
       epoll_data->read_descriptor->PerformRead();
-    } else if (epoll_data->write_descriptor) {
-      epoll_data->write_descriptor->PerformWrite();
     } else if (epoll_data->connected_descriptor &&
                !epoll_data->connected_descriptor->IsClosed()) {
       // The remote end hung up but data sent before that is still queued.
@@ -391,11 +389,18 @@ void EPoller::CheckDescriptor(struct epoll_event *event,
         delete epoll_data->connected_descriptor;
         epoll_data->connected_descriptor = NULL;
       }
+    } else if (epoll_data->write_descriptor) {
+      // Only the write side is registered, let the writer see the error.
+      epoll_data->write_descriptor->PerformWrite();
+      event->events = 0;
     } else {
       OLA_FATAL << "HUP event for " << epoll_data
                 << " but no write or connected descriptor found!";
     }
-    event->events = 0;
+    // The hang-up has been dealt with by the read side. A write registration
+    // sharing the fd is served by the EPOLLOUT check below, as SelectPoller
+    // does; it must not hide the hang-up from the read side.
+    event->events &= EPOLLOUT;
   }
 
   if (event->events & EPOLLIN) {
